@@ -10,6 +10,44 @@ OVERLAY = {
     "explorer-backend/processor/zz_verif_push_test.go": "explorer/push_verif_test.go",
 }
 
+# Spec clauses of the explorer family that C06 also reports (its anchor explorer-backend/processor/vaa_gossip_consumer.go): "the explorer's
+# verification gate accepted a signature list that VerifySignatures against the named set rejects". Everything else is C19's alone.
+C06_CLAUSES = ("gate-accepts-invalid-signature-list",)
+
+
+def run_gate_for_c06(ctx):
+    """The verification-gate cases of the explorer harness (verifyVAA directly and through Push on fresh consumers, one message id per
+    VAA), judged by drv_explorer; only the clauses in C06_CLAUSES are kept - the others are C19's business (its own check reports them)."""
+    ov = ctx.overlay(OVERLAY)
+    cases = os.path.join(ctx.work, "explorer_gate.cases")
+    rc, out = ctx.go_test("explorer-backend", "./processor", "^TestVerifGate$", ov, timeout=240 if ctx.tier == "quick" else 1500)
+    if rc != 0 or not os.path.exists(cases):
+        ctx.broken.append(("tie", "go-harness:explorer_gate.cases", out[-800:]))
+        return
+    before = len(ctx.spec_violations)
+    n_ok, stats = ctx.judge("explorer", cases)
+    kept, foreign = [], 0
+    for v in ctx.spec_violations[before:]:
+        if v["key"] in C06_CLAUSES:
+            kept.append(v)
+        else:
+            foreign += 1
+    ctx.spec_violations[before:] = kept
+    if foreign:
+        ctx.notes.append("%d explorer Spec verdicts for clauses of C19 were left to its own check" % foreign)
+    kinds, samples = {}, []
+    with open(cases) as f:
+        for ln in f:
+            op = ln.split(" ", 1)[0]
+            kinds[op] = kinds.get(op, 0) + 1
+            if "kind=extra-" in ln and len(samples) < 2:
+                samples.append(ln.strip()[:400])
+    ctx.cov["evaluations"] += sum(kinds.values())
+    ctx.cov["distinct_nontrivial"] += n_ok
+    ctx.cov["samples"] += samples
+    return kinds
+
+
 RACE_HDR = re.compile(r"^(Read|Write|Previous read|Previous write) at 0x[0-9a-f]+ by (?:main )?goroutine \d+:\s*$")
 
 
@@ -109,11 +147,16 @@ def run(ctx):
         "chain prefix, then contiguous updates starting <= current+1, lookups of old/current/future/non-existent indexes with RPC and dial "
         "failures, GetGuardianSetsFromChain, one round of the real ticker goroutine) on which the Spec is evaluated, and 'adversarial' "
         "sequences (arbitrary states, gaps, late starts, repeated targets, indexes near 2^32, current=-1) judged for the model tie only; "
-        "processor: 40 Push sequences (quick) of 8-17 VAAs each over chains of 2-5 guardian sets of clearly different sizes (1,2,4,7,13,19: growing, "
+        "processor: per round 10 set sizes x 6 kinds x 1..3 surplus bad signatures after a valid quorum (outsider key, repeated index, lower index, "
+        "index >= set size, random/zero bytes, one more valid one then bad ones) and quorum+0..2 valid ones, through verifyVAA directly and through "
+        "Push on fresh consumers; 4 forged-copy sequences: for each of 7 forging kinds (unsigned, outsiders, the genuine signatures on another "
+        "payload, under-signed, renamed set, same body with outsiders' signatures, one outsider) the history [genuine VAA, queue full -> hand-off "
+        "fails] [forged copy with the same message id, room] [genuine retry] [forged copy while the id is marked] [dedup entry expires] [two forged "
+        "copies] [genuine again]; 40 Push sequences (quick) of 8-17 VAAs each over chains of 2-5 guardian sets of clearly different sizes (1,2,4,7,13,19: growing, "
         "shrinking, alternating, random) - VAAs naming old/current/future sets with exactly quorum(named)-1, quorum(named), quorum(current)-1, "
         "quorum(current) valid signatures of the named set, exact quorum, all, one short, unsigned, "
         "outsider, quorum of another set, body altered, duplicate signer, swapped, re-indexed, out-of-range index, bad recovery id, too many, "
-        "set unknown to the chain, repeats of earlier message ids - with the queue full / one slot left / empty and the dedup cache "
+        "set unknown to the chain, surplus bad signatures, repeats of earlier message ids and forged copies of them - with the queue full / one slot left / empty and the dedup cache "
         "honest, erroring, forgetting or answering arbitrarily; verifyVAA directly (through reflection, only while its signature is unchanged) incl. "
         "nil / empty / short address lists; CalculateQuorum(0..255). The Spec 'queued => signed, quorum of the NAMED set, Valid signatures' is "
         "evaluated on what appeared on the queue, independently of the model. "
